@@ -145,11 +145,22 @@ def queues(ctx, eng):
         cons = [c for (_, c) in bd.calls if c.get("fname") in ("consume_movable", "consume") ]
         ctx.ob("R18.5", f"{deq[0]['key']}|delegates-to-consume", len(cons) >= 1, f"{deq[0]['file']}:{deq[0]['line']}",
                f"dequeue delegates to the ring's consumption ({[c.get('fname') for c in cons]})")
+        # 'full' / 'empty' answers are the ring's: every answer of enqueue / dequeue is produced after asking the ring (no early-out on a side length counter,
+        # which is updated at another instant than the ring and therefore reports full / empty when no such instant existed), and exactly once
+        for (bq, calls_, what) in ((be, ("publish_movable", "publish"), "enqueue"), (bd, ("consume_movable", "consume"), "dequeue")):
+            asks = [b for (b, c) in bq.calls if c.get("fname") in calls_]
+            asks_len = [b for (b, c) in bq.calls if c.get("fname") in ("available_elements_count", "is_empty", "is_full") and "base_queue" in str(util.arg_path(bq, c, 0))]
+            esc = [r for r in bq.returns if r in bq.reach_from(0, avoid=frozenset(asks) | frozenset(asks_len))] if asks and 0 not in asks and 0 not in asks_len else []
+            lo, hi, inloop = util.count_on_paths(bq, lambda b: b in set(asks))
+            ctx.ob("R18.5", f"{bq.key}|answers-only-after-asking-the-ring", bool(asks) and not esc and (lo, hi) == (1, 1) and not inloop,
+                   bq.loc(esc[0]) if esc else f"{bq.f['file']}:{bq.f['line']}",
+                   f"{what} asks the ring exactly once on every path and answers afterwards" if (asks and not esc and (lo, hi) == (1, 1)) else
+                   f"{what} can answer without asking the ring (or asks {lo}..{hi} times): a 'full' / 'empty' decided from a side counter is not consistent with any instant of the call")
         for k in (enq[0]["key"], deq[0]["key"]):
             an = eng.analyse(k)
             leaks = [o for o in an.outcomes if o[1]]
             ctx.ob("R18.6", f"{k}|no-resource-left", not leaks, "", "no ring reservation / lock survives the call" if not leaks else f"returns holding {sorted(leaks[0][1])}")
-    ctx.floor("R18.5", 4)
+    ctx.floor("R18.5", 8)
 
 
 # ---------------------------------------------------------------------------------------------- R18.7 (added after seed C18-s2)
